@@ -19,7 +19,7 @@ from guppylang_internals.nodes import LocalCall, GlobalCall, TensorCall, Barrier
 from guppylang_internals.checker.core import Variable, SubscriptAccess, FieldAccess
 from guppylang_internals.ast_util import with_type, with_loc
 from guppylang_internals.tys.ty import FunctionType, FuncInput, InputFlags, UnitaryFlags, NoneType, NumericType, TupleType
-from guppylang_internals.tys.builtin import array_type
+from guppylang_internals.tys.builtin import array_type, option_type
 from guppylang_internals.tys.qubit import qubit_ty
 from guppylang_internals.definition.common import DefId
 from guppylang_internals.error import GuppyError
@@ -125,7 +125,7 @@ def _block(call, pos, ret_ty):
 
 def h_call(ctx: int, callee: int, inner: int, shape: int) -> bool:
     """
-    pre: 0 <= ctx < 8 and 0 <= callee < 8 and 0 <= inner < 8 and 0 <= shape < 6
+    pre: 0 <= ctx < 8 and 0 <= callee < 8 and 0 <= inner < 8 and 0 <= shape < 10
     pre: SHAPE < 0 or shape == SHAPE
     pre: shape in (2, 3, 4) or inner == 0
     post: _
@@ -144,8 +144,16 @@ def h_call(ctx: int, callee: int, inner: int, shape: int) -> bool:
         args = [innercall, place("q", Q)]                   # nested call first
     elif shape == 4:
         args = [place("x", I), innercall]                   # classical outer call with a nested quantum call
-    else:
+    elif shape == 5:
         args = [place("qs", array_type(Q, 2))]              # qubits inside an array
+    elif shape == 6:
+        args = [place("qss", array_type(array_type(Q, 2), 2))]            # ... two levels deep
+    elif shape == 7:
+        args = [place("t", TupleType([I, TupleType([Q, I])]))]             # inside a nested tuple
+    elif shape == 8:
+        args = [place("os", array_type(option_type(Q), 2))]               # array of optional qubits
+    else:
+        args = [place("x", I), place("t3", TupleType([TupleType([TupleType([Q])])]))]   # classical first, qubit three levels deep
     call = mkcall(KIND, kf, args, I)
     bb, is_assign = _block(call, POS, I)
     try:
@@ -153,7 +161,7 @@ def h_call(ctx: int, callee: int, inner: int, shape: int) -> bool:
         rejected = False
     except GuppyError:
         rejected = True
-    has_q_outer = shape in (0, 2, 3, 5)
+    has_q_outer = shape in (0, 2, 3, 5, 6, 7, 8, 9)
     must_reject = (has_q_outer and bad(cf, kf)) or (shape in (2, 3, 4) and bad(cf, inf))
     if is_assign and UnitaryFlags.Dagger in cf:
         must_reject = True
